@@ -19,6 +19,13 @@ theorem embedded_text_is_the_text (s : Str) (h : '\r' ∉ s) : evalGo ('`' :: es
 theorem embedded_shape (s : Str) (h : '\r' ∉ s) : (evalGo ('`' :: escBacktick s ++ ['`'])).isSome = true := by
   rw [embed_rt s h]; rfl
 
+/-- the helper as it is (backticks, and byte order marks as JSON escapes): the expression evaluates to the text in which
+    every U+FEFF is spelled `\\ufeff` - the same JSON value - and to the text itself when there is none; the embedded
+    source never contains a raw byte order mark (which the Go compiler rejects) -/
+theorem readable_evaluates (s : Str) (h : '\r' ∉ s) :
+    evalGo ('`' :: readable s ++ ['`']) = some (escBOM s) ∧ ('\uFEFF' ∉ s → escBOM s = s) ∧ '\uFEFF' ∉ escBOM s :=
+  ⟨readable_rt s h, escBOM_id s, escBOM_no_bom s⟩
+
 /-- JSON string printer for the characters that matter here: control characters are written as escapes -/
 def jsonEscChar (c : Char) : Str :=
   if c = '"' then ['\\', '"'] else if c = '\\' then ['\\', '\\']
